@@ -7,9 +7,10 @@
 //! of every caller register) is compared with `vh::refcfi`, an interpreter written from the
 //! module documentation of walker.rs. A second space enumerates record structure (INIT rule
 //! lists x two delta records x address layouts x lookup addresses); a third drives the real
-//! amd64 `walk_stack` (the `CfiStackWalker` callbacks) over a rule menu.
+//! `walk_stack` (the `CfiStackWalker` callbacks) of amd64, x86 and arm over a rule menu that includes
+//! values wider than a 32-bit register.
 use breakpad_symbols::{FrameWalker, SimpleModule, SymbolFile};
-use minidump::format::CONTEXT_AMD64;
+use minidump::format::{CONTEXT_AMD64, CONTEXT_ARM, CONTEXT_X86};
 use minidump::system_info::{Cpu, Os};
 use minidump::{CpuContext, MinidumpContext, MinidumpContextValidity, MinidumpMemory, MinidumpModule, MinidumpModuleList, MinidumpRawContext, UnifiedMemory};
 use minidump_unwind::{string_symbol_supplier, walk_stack, CallStack, FrameTrust, SystemInfo, Symbolizer};
@@ -429,77 +430,189 @@ fn lines_count(rec: &CfiRecord, rel: u64) -> usize {
 }
 
 // ---------------------------------------------------------------------------------------------
-// space 3: the real amd64 walk_stack (CfiStackWalker callbacks) on a CFI-only symbol file
+// space 3: the real walk_stack (CfiStackWalker callbacks) on a CFI-only symbol file, for a 64-bit CPU
+// (amd64) and two 32-bit CPUs (x86, arm). Rule evaluation is 64-bit on every CPU; a value that cannot be
+// represented in the CPU's register cannot be "set from its rule", so the register is unknown in the caller.
 
 const MOD: u64 = 0x4000_0000;
 const STACK: u64 = 0x6000_0000;
-const WALK_REGS: &[&str] = &["rbx", "r12", "rax"];
-const WALK_RULES: &[Option<&str>] = &[None, Some(".cfa 16 - ^"), Some(".undef"), Some("$r15 1 +"), Some("$nope")];
-const WALK_CFA: &[&str] = &["$rsp 32 +", "$rbp 8 +"];
-const WALK_RA: &[&str] = &[".cfa 8 - ^", ".undef"];
-const WALK_VALID: &[Option<&[&str]>] = &[None, Some(&["rip", "rsp", "rbx", "r15"]), Some(&["rip", "rsp"])];
-const WALK_CALLEE: &[(&str, u64)] = &[("rip", MOD + 0x1010), ("rsp", STACK), ("rbp", STACK + 0x38), ("rbx", 0xb0b), ("r12", 0x1212), ("r15", 0x1515), ("rax", 0xaaaa)];
+
+/// One CPU flavour of the walk space. `regs` = the three registers that get a rule: two the ABI table forwards
+/// implicitly (callee-saved) and one it does not (caller-saved); `helper` is read by a rule and `fp` by a CFA rule.
+struct WalkCpu {
+    name: &'static str,
+    arch: &'static str,
+    /// register width in bytes (= width of one stack word)
+    w: u64,
+    /// `$` for the x86 family, nothing for ARM (the parser accepts both everywhere)
+    sigil: &'static str,
+    ip: &'static str,
+    sp: &'static str,
+    fp: &'static str,
+    regs: [&'static str; 3],
+    helper: &'static str,
+    /// registers the unwinder forwards implicitly (its ABI table): only used to word the signature
+    callee_saved: &'static [&'static str],
+    /// return address - instruction of the caller frame
+    ip_adjust: u64,
+    callee: &'static [(&'static str, u64)],
+}
+const WALK_CPUS: &[WalkCpu] = &[
+    WalkCpu {
+        name: "amd64", arch: "x86_64", w: 8, sigil: "$", ip: "rip", sp: "rsp", fp: "rbp", regs: ["rbx", "r12", "rax"], helper: "r15",
+        callee_saved: &["rbx", "rbp", "r12", "r13", "r14", "r15"], ip_adjust: 1,
+        callee: &[("rip", MOD + 0x1010), ("rsp", STACK), ("rbp", STACK + 7 * 8), ("rbx", 0xb0b), ("r12", 0x1212), ("r15", 0x1515), ("rax", 0xaaaa)],
+    },
+    WalkCpu {
+        name: "x86", arch: "x86", w: 4, sigil: "$", ip: "eip", sp: "esp", fp: "ebp", regs: ["ebx", "esi", "ecx"], helper: "edi",
+        callee_saved: &["ebp", "ebx", "edi", "esi"], ip_adjust: 1,
+        callee: &[("eip", MOD + 0x1010), ("esp", STACK), ("ebp", STACK + 7 * 4), ("ebx", 0xb0b), ("esi", 0x5151), ("edi", 0xd1d1), ("ecx", 0xcccc)],
+    },
+    WalkCpu {
+        name: "arm", arch: "arm", w: 4, sigil: "", ip: "pc", sp: "sp", fp: "fp", regs: ["r4", "r5", "r1"], helper: "r6",
+        callee_saved: &["r4", "r5", "r6", "r7", "r8", "r9", "r10", "fp"], ip_adjust: 2,
+        callee: &[("pc", MOD + 0x1010), ("sp", STACK), ("fp", STACK + 7 * 4), ("r4", 0x4040), ("r5", 0x5050), ("r6", 0x6060), ("r1", 0x1111)],
+    },
+];
+
+/// rule menu of one register; `{W2}` = two stack words, `{S}` = sigil, `{H}` = helper register.
+/// The last five are about the register width: 64-bit wrapping results that do not fit in 32 bits ("negative"
+/// difference, carry past 2^32, the smallest such literal), the largest value that fits, and a rule whose
+/// intermediate value is wider than 32 bits while its result fits.
+const WALK_RULES: &[Option<&str>] = &[
+    None,
+    Some(".cfa {W2} - ^"),
+    Some(".undef"),
+    Some("{S}{H} 1 +"),
+    Some("{S}nope"),
+    Some("4 .cfa -"),
+    Some(".cfa 4294967296 +"),
+    Some("4294967296"),
+    Some("4294967295"),
+    Some(".cfa 4294967296 + 4294967296 -"),
+];
+/// `.cfa` rules (both fit in every register width): four words above sp, one word above fp
+const WALK_CFA: &[&str] = &["{S}{SP} {W4} +", "{S}{FP} {W} +"];
+const WALK_RA: &[&str] = &[".cfa {W} - ^", ".undef"];
+/// callee validity sets: all; ip sp + the first callee-saved rule register + helper; ip sp only;
+/// ip sp fp + the caller-saved rule register + helper
+const WALK_VALID: usize = 4;
+fn walk_valid(cpu: &WalkCpu, vi: usize) -> Option<Vec<&'static str>> {
+    match vi {
+        0 => None,
+        1 => Some(vec![cpu.ip, cpu.sp, cpu.regs[0], cpu.helper]),
+        2 => Some(vec![cpu.ip, cpu.sp]),
+        _ => Some(vec![cpu.ip, cpu.sp, cpu.fp, cpu.regs[2], cpu.helper]),
+    }
+}
+fn walk_subst(cpu: &WalkCpu, t: &str) -> String {
+    t.replace("{W4}", &(4 * cpu.w).to_string())
+        .replace("{W2}", &(2 * cpu.w).to_string())
+        .replace("{W}", &cpu.w.to_string())
+        .replace("{SP}", cpu.sp)
+        .replace("{FP}", cpu.fp)
+        .replace("{S}", cpu.sigil)
+        .replace("{H}", cpu.helper)
+}
+/// largest value a register of the CPU holds
+fn walk_reg_max(cpu: &WalkCpu) -> u64 {
+    if cpu.w == 8 { u64::MAX } else { u32::MAX as u64 }
+}
+const WALK_WORDS: u64 = 32;
+fn walk_word(cpu: &WalkCpu, i: u64) -> u64 {
+    match i {
+        3 => MOD + 0x2020, // cfa(sp + 4 words) - 1 word
+        7 => MOD + 0x3030, // cfa(fp + 1 word) - 1 word = fp = word 7
+        _ => (if cpu.w == 8 { 0x7000_0000_0000 } else { 0x7000_0000 }) + i * 0x11,
+    }
+}
 
 struct WalkEnv {
-    valid: Option<&'static [&'static str]>,
-}
-fn walk_word(i: u64) -> u64 {
-    match i {
-        3 => MOD + 0x2020, // cfa(rsp+32) - 8
-        8 => MOD + 0x3030, // cfa(rbp+8) - 8 = STACK + 0x38 + 8 - 8 = STACK + 0x40 -> word 8
-        _ => 0x7000_0000_0000 + i * 0x11,
-    }
+    cpu: &'static WalkCpu,
+    valid: Option<Vec<&'static str>>,
 }
 impl CfiEnv for WalkEnv {
     fn callee_reg(&self, name: &str) -> Option<u64> {
-        if let Some(v) = self.valid {
+        if let Some(v) = &self.valid {
             if !v.contains(&name) {
                 return None;
             }
         }
-        WALK_CALLEE.iter().find(|r| r.0 == name).map(|r| r.1)
+        self.cpu.callee.iter().find(|r| r.0 == name).map(|r| r.1)
     }
     fn mem(&self, addr: u64) -> Option<u64> {
-        if addr >= STACK && addr + 8 <= STACK + 0x100 && (addr - STACK) % 8 == 0 {
-            Some(walk_word((addr - STACK) / 8))
+        // register-sized reads
+        let w = self.cpu.w;
+        if addr >= STACK && addr - STACK <= WALK_WORDS * w - w {
+            assert!((addr - STACK) % w == 0, "harness: unaligned stack reads are outside the walk menu");
+            Some(walk_word(self.cpu, (addr - STACK) / w))
         } else {
             None
         }
     }
 }
 
-fn walk_space() -> Space {
+/// why the reference says a register with a rule is unknown in the caller
+#[derive(Clone, Copy, PartialEq, Eq)]
+enum Unknown {
+    RuleFails,
+    /// the rule evaluates (64-bit), the value is wider than the register
+    TooWide(u64),
+}
+
+fn walk_context(cpu: &WalkCpu) -> MinidumpRawContext {
+    macro_rules! fill {
+        ($ty:ty, $variant:ident, $reg:ty) => {{
+            let mut c = <$ty>::default();
+            for (n, v) in cpu.callee {
+                c.set_register(n, <$reg>::try_from(*v).expect("harness: callee value fits the register")).expect("harness: register name");
+            }
+            MinidumpRawContext::$variant(c)
+        }};
+    }
+    match cpu.name {
+        "amd64" => fill!(CONTEXT_AMD64, Amd64, u64),
+        "x86" => fill!(CONTEXT_X86, X86, u32),
+        "arm" => fill!(CONTEXT_ARM, Arm, u32),
+        _ => unreachable!(),
+    }
+}
+
+fn walk_space(cpu: &'static WalkCpu) -> Space {
     let nr = WALK_RULES.len() as u64;
-    let radices = [nr, nr, nr, WALK_CFA.len() as u64, WALK_RA.len() as u64, WALK_VALID.len() as u64];
+    let radices = [nr, nr, nr, WALK_CFA.len() as u64, WALK_RA.len() as u64, WALK_VALID as u64];
     let n = product(&radices);
     let rules_of = move |idx: u64| -> (String, usize) {
         let d = unrank(idx, &radices);
-        let mut r = format!(".cfa: {} .ra: {}", WALK_CFA[d[3] as usize], WALK_RA[d[4] as usize]);
-        for (i, reg) in WALK_REGS.iter().enumerate() {
+        let mut r = format!(".cfa: {} .ra: {}", walk_subst(cpu, WALK_CFA[d[3] as usize]), walk_subst(cpu, WALK_RA[d[4] as usize]));
+        for (i, reg) in cpu.regs.iter().enumerate() {
             if let Some(e) = WALK_RULES[d[i] as usize] {
-                r += &format!(" ${reg}: {e}");
+                r += &format!(" {}{reg}: {}", cpu.sigil, walk_subst(cpu, e));
             }
         }
         (r, d[5] as usize)
     };
+    let cname = cpu.name;
     let run = move |idx: u64, l: &mut Local| {
         let (rules, vi) = rules_of(idx);
-        let sym = format!("MODULE Linux x86_64 000000000000000000000000000000000 m\nSTACK CFI INIT 1000 100 {rules}\n");
+        let sym = format!("MODULE Linux {} 000000000000000000000000000000000 m\nSTACK CFI INIT 1000 100 {rules}\n", cpu.arch);
         let recs = [CfiRecord { address: 0x1000, size: 0x100, init_rules: rules.clone(), deltas: vec![] }];
-        let exp = refcfi::unwind(&recs, 0x1010, &WalkEnv { valid: WALK_VALID[vi] });
-        let mut c = CONTEXT_AMD64::default();
-        for (n, v) in WALK_CALLEE {
-            c.set_register(n, *v).expect("harness: amd64 register name");
-        }
-        let valid = match WALK_VALID[vi] {
+        let valid_names = walk_valid(cpu, vi);
+        let exp = refcfi::unwind(&recs, 0x1010, &WalkEnv { cpu, valid: valid_names.clone() });
+        let valid = match &valid_names {
             None => MinidumpContextValidity::All,
             Some(v) => MinidumpContextValidity::Some(v.iter().copied().collect::<HashSet<&'static str>>()),
         };
-        let ctx = MinidumpContext { raw: MinidumpRawContext::Amd64(c), valid };
-        let bytes: Vec<u8> = (0..32u64).flat_map(|i| walk_word(i).to_le_bytes()).collect();
+        let ctx = MinidumpContext { raw: walk_context(cpu), valid };
+        let bytes: Vec<u8> = (0..WALK_WORDS).flat_map(|i| walk_word(cpu, i).to_le_bytes()[..cpu.w as usize].to_vec()).collect();
         let mem = MinidumpMemory { desc: Default::default(), base_address: STACK, size: bytes.len() as u64, bytes: &bytes, endian: scroll::LE };
         let ml = MinidumpModuleList::from_modules(vec![MinidumpModule::new(MOD, 0x10000, "m")]);
-        let si = SystemInfo { os: Os::Linux, os_version: None, os_build: None, cpu: Cpu::X86_64, cpu_info: None, cpu_microcode_version: None, cpu_count: 1 };
+        let cpu_kind = match cpu.name {
+            "amd64" => Cpu::X86_64,
+            "x86" => Cpu::X86,
+            _ => Cpu::Arm,
+        };
+        let si = SystemInfo { os: Os::Linux, os_version: None, os_build: None, cpu: cpu_kind, cpu_info: None, cpu_microcode_version: None, cpu_count: 1 };
         let mut syms = HashMap::new();
         syms.insert("m".to_string(), sym.clone());
         let symbolizer = Symbolizer::new(string_symbol_supplier(syms));
@@ -508,7 +621,7 @@ fn walk_space() -> Space {
         let r = guard(|| {
             refcfi::block_on(walk_stack(0, |i: usize, _: &minidump_unwind::StackFrame| assert!(i < 64, "harness: frame budget"), &mut cs, Some(UnifiedMemory::Memory(&mem)), &ml, &si, &symbolizer))
         });
-        let detail = || json!({"symbols": sym, "callee_validity": format!("{:?}", WALK_VALID[vi]), "reference": format!("{exp:?}")});
+        let detail = || json!({"cpu": cname, "symbols": sym, "callee_validity": format!("{valid_names:?}"), "callee_registers": format!("{:x?}", cpu.callee), "reference_64bit": format!("{exp:?}")});
         if let Err(p) = r {
             if p.msg.contains("harness:") {
                 panic!("{}", p.msg);
@@ -516,36 +629,66 @@ fn walk_space() -> Space {
             l.panic_violation(&p, detail());
             return;
         }
-        const W: &str = "amd64.walk_stack.cfi";
+        let w = format!("{cname}.walk_stack.cfi");
         let f1 = cs.frames.get(1).filter(|f| f.trust == FrameTrust::CallFrameInfo);
         match &exp {
             CfiExpect::Some { cfa, ra, regs } => {
-                l.outcome("amd64 walk_stack: reference Some");
-                l.distinct(&("walk", vi, &exp));
+                let max = walk_reg_max(cpu);
+                assert!(*cfa <= max && *ra <= max, "harness: the cfa/ra rules of the walk menu must fit the register");
+                // projection of the 64-bit reference on the register width
+                let want: Vec<(&String, Result<u64, Unknown>)> = regs
+                    .iter()
+                    .map(|(n, o)| {
+                        (n, match o {
+                            RegOut::Set(v) if *v <= max => Ok(*v),
+                            RegOut::Set(v) => Err(Unknown::TooWide(*v)),
+                            RegOut::Cleared => Err(Unknown::RuleFails),
+                            RegOut::Open => panic!("harness: walk menu must have a definite reference"),
+                        })
+                    })
+                    .collect();
+                let wide = want.iter().filter(|x| matches!(x.1, Err(Unknown::TooWide(_)))).count() as u64;
+                l.outcome(&format!("{cname} walk_stack: reference Some"));
+                if wide > 0 {
+                    l.count(&format!("walk_register_rules_with_value_wider_than_register[{cname}]"), wide);
+                }
+                l.distinct(&("walk", cname, vi, cfa, ra, want.iter().map(|x| (x.0.clone(), x.1.ok())).collect::<Vec<_>>()));
                 let Some(f) = f1 else {
-                    l.violation(format!("{W}:no-cfi-frame"), "the caller frame was not produced by CFI although the rules evaluate", detail());
+                    l.violation(format!("{w}:no-cfi-frame"), "the caller frame was not produced by CFI although the rules evaluate", detail());
                     return;
                 };
                 let get = |n: &str| f.context.get_register(n);
-                if get("rsp") != Some(*cfa) || get("rip") != Some(*ra) || f.instruction != ra - 1 {
-                    l.violation(format!("{W}:sp-ip"), format!("caller rsp/rip {:?}/{:?} instruction {:#x}, reference cfa {cfa:#x} ra {ra:#x}", get("rsp"), get("rip"), f.instruction), detail());
+                if get(cpu.sp) != Some(*cfa) || get(cpu.ip) != Some(*ra) || f.instruction != ra - cpu.ip_adjust {
+                    l.violation(
+                        format!("{w}:sp-ip"),
+                        format!("caller {}/{} {:?}/{:?} instruction {:#x}, reference cfa {cfa:#x} ra {ra:#x}", cpu.sp, cpu.ip, get(cpu.sp), get(cpu.ip), f.instruction),
+                        detail(),
+                    );
                 }
-                for (n, o) in regs {
-                    let want = match o {
-                        RegOut::Set(v) => Some(*v),
-                        RegOut::Cleared => None,
-                        RegOut::Open => continue,
-                    };
-                    if get(n) != want {
-                        let kind = if want.is_some() { "expected-set" } else { "expected-unknown" };
-                        l.violation(format!("{W}:caller-register:{kind}"), format!("caller {n} = {:?}, reference {want:?}", get(n)), detail());
+                for (n, want) in &want {
+                    let got = get(n);
+                    if got == want.ok() {
+                        continue;
                     }
+                    let callee_val = cpu.callee.iter().find(|r| r.0 == n.as_str()).map(|r| r.1);
+                    let forwarded = cpu.callee_saved.contains(&n.as_str()) && got.is_some() && got == callee_val;
+                    let (kind, why) = match want {
+                        Ok(_) => ("expected-set", String::new()),
+                        Err(Unknown::RuleFails) => ("expected-unknown", " (its rule fails)".to_string()),
+                        // a register of the unwinder's forwarding table that keeps the callee's value although
+                        // its rule produced another (unrepresentable) one is told apart from the general case
+                        Err(Unknown::TooWide(v)) if forwarded => ("value-wider-than-register:forwarded-callee-value-kept", format!(" (its rule evaluates to {v:#x}, wider than the register: it cannot be set from its rule)")),
+                        Err(Unknown::TooWide(v)) => ("value-wider-than-register:expected-unknown", format!(" (its rule evaluates to {v:#x}, wider than the register: it cannot be set from its rule)")),
+                    };
+                    // the register-width outcomes come from CPU-independent code (CfiStackWalker): one signature for all CPUs
+                    let sig = if kind.starts_with("value-wider") { format!("walk_stack.cfi:caller-register:{kind}") } else { format!("{w}:caller-register:{kind}") };
+                    l.violation(sig, format!("{cname}: caller {n} = {got:x?}, reference {:x?}{why}", want.ok()), detail());
                 }
             }
-            CfiExpect::Fail(w) => {
-                l.outcome(&format!("amd64 walk_stack: reference None ({w})"));
+            CfiExpect::Fail(why) => {
+                l.outcome(&format!("{cname} walk_stack: reference None ({why})"));
                 if f1.is_some() {
-                    l.violation(format!("{W}:cfi-frame-despite-failure({w})"), "a CFI-trust caller frame exists although the rules fail", detail());
+                    l.violation(format!("{w}:cfi-frame-despite-failure({why})"), "a CFI-trust caller frame exists although the rules fail", detail());
                 }
             }
             _ => panic!("harness: walk menu must have a definite reference"),
@@ -553,9 +696,10 @@ fn walk_space() -> Space {
     };
     let desc = move |idx: u64| {
         let (r, vi) = rules_of(idx);
-        json!({"rules": r, "callee_validity": format!("{:?}", WALK_VALID[vi])})
+        json!({"cpu": cname, "rules": r, "callee_validity": format!("{:?}", walk_valid(cpu, vi))})
     };
-    Space::new("amd64-walk_stack", n, run, desc)
+    let name: &'static str = Box::leak(format!("{cname}-walk_stack").into_boxed_str());
+    Space::new(name, n, run, desc)
 }
 
 fn main() {
@@ -565,7 +709,7 @@ fn main() {
         let mut def = CheckDef::new(
             "C06",
             "exploration",
-            "bounded-exhaustive differential: (expr) every token sequence of length 0..=L over the 26-token alphabet (and, beyond L, every WELL-FORMED — stack never underflows, one value left — expression of exactly L+1 tokens over the full alphabet and of L+2 tokens over a reduced value alphabet) hosted in the .cfa rule, the .ra rule and a general-register rule of a one-record symbol file, each evaluated by the real parser + SymbolFile::walk_frame through a mock FrameWalker on 4 register files (+ the unreadable-memory image when memory is used) and compared (Some/None, cfa, ra, final set/cleared/untouched state of every caller register) with the reference interpreter vh::refcfi; (structure) every INIT rule list (1-2 fragments, or base + 0-1) x two delta records (the first in the file 0..=D fragments, the second 0..=1) x 5 address layouts (file order reversed, at the range bounds, below the INIT start, at the range end) with neighbour records before and after, looked up at 10 addresses + below the module base on 2 register files; (amd64-walk_stack) 5^3 register rule choices x 2 cfa x 2 ra rules x 3 callee validity sets through the real walk_stack. distinct_nontrivial = distinct (host, register file, memory image, reference outcome incl. values) for expr; distinct (rule lines in effect, register file) for structure; distinct (validity, reference outcome) for the walk.",
+            "bounded-exhaustive differential: (expr) every token sequence of length 0..=L over the 26-token alphabet (and, beyond L, every WELL-FORMED — stack never underflows, one value left — expression of exactly L+1 tokens over the full alphabet and of L+2 tokens over a reduced value alphabet) hosted in the .cfa rule, the .ra rule and a general-register rule of a one-record symbol file, each evaluated by the real parser + SymbolFile::walk_frame through a mock FrameWalker on 4 register files (+ the unreadable-memory image when memory is used) and compared (Some/None, cfa, ra, final set/cleared/untouched state of every caller register) with the reference interpreter vh::refcfi; (structure) every INIT rule list (1-2 fragments, or base + 0-1) x two delta records (the first in the file 0..=D fragments, the second 0..=1) x 5 address layouts (file order reversed, at the range bounds, below the INIT start, at the range end) with neighbour records before and after, looked up at 10 addresses + below the module base on 2 register files; (<cpu>-walk_stack, cpu in amd64 | x86 | arm) 10^3 register rule choices (per register: no rule, saved on the stack, .undef, computed from another register, unknown register name, and five register-width rules: `4 .cfa -`, `.cfa 4294967296 +`, `4294967296`, `4294967295`, `.cfa 4294967296 + 4294967296 -`) for two callee-saved registers and one caller-saved register x 2 cfa x 2 ra rules (both fit the register) x 4 callee validity sets through the real walk_stack with a real CONTEXT_AMD64 / CONTEXT_X86 / CONTEXT_ARM and register-sized stack words; the 64-bit reference is projected on the register width: a register rule whose value does not fit the register leaves that register unknown in the caller frame and changes nothing else. distinct_nontrivial = distinct (host, register file, memory image, reference outcome incl. values) for expr; distinct (rule lines in effect, register file) for structure; distinct (validity, reference outcome) for the walk.",
         );
         def.assumptions = vec![
             "the reference is written from the module documentation of walker.rs and the property statement; '@' truncates the lhs to a multiple of the rhs, which must be a power of two; zero is not a power of two".into(),
@@ -574,7 +718,8 @@ fn main() {
             "delta records with equal addresses are run only when the two lines assign disjoint registers (which line wins for one register is undocumented); carve-out: tokens with '$' inside a word, labels that alias one register under two names (x29/fp: HashMap order, F10, belongs to C13) are not in the alphabet".into(),
             "a rule for a register name the walker does not know has no observable effect (the walker rejects the name); the final state of such names is not compared".into(),
             "literals outside i64 and '.ra' in EXPR position are not values of the language: the rule fails".into(),
-            "amd64 walk_stack: only rsp, rip and registers that have a rule are compared (which registers are forwarded implicitly is the unwinder's ABI table, not part of this property)".into(),
+            "walk_stack (amd64, x86, arm): only the stack pointer, the instruction pointer and registers that have a rule are compared, each by validity and value in the caller frame (which registers are forwarded implicitly is the unwinder's ABI table, not part of this property)".into(),
+            "walk_stack on 32-bit CPUs: rules are evaluated in 64-bit wrapping arithmetic on every CPU (property statement); a register is 'set from its rule' only if the value is representable in the register, otherwise it is unknown in the caller like after any other rule failure — also when the unwinder would have forwarded the callee's value had there been no rule. Memory reads are register-sized. The .cfa/.ra rules of the menu always fit (what a non-representable cfa/ra does is not compared)".into(),
         ];
         def.extra.insert("expression_length_bound".into(), json!(maxlen));
         def.extra.insert("delta_record_fragments_bound".into(), json!(dlen));
@@ -583,7 +728,8 @@ fn main() {
         // beyond the all-sequences bound: only stack-valid expressions, one / two tokens longer
         let (wf_full, wf_reduced) = ctx.tier.pick((5usize, 6usize), (6, 7));
         def.extra.insert("wellformed_lengths".into(), json!({"full_value_alphabet": wf_full, "reduced_value_alphabet": wf_reduced, "reduced_values": value_tokens(true)}));
-        def.spaces = vec![expr_space(maxlen), wf_space(wf_full, false), wf_space(wf_reduced, true), struct_space(dlen), walk_space()];
+        def.spaces = vec![expr_space(maxlen), wf_space(wf_full, false), wf_space(wf_reduced, true), struct_space(dlen)];
+        def.spaces.extend(WALK_CPUS.iter().map(walk_space));
         def.finish = Some(Box::new(|total, extra| {
             // every operator must have been part of a successful evaluation, and both result
             // classes must be populated: otherwise the space is vacuous (a harness error)
@@ -595,6 +741,12 @@ fn main() {
                 let n = total.counters.get(&format!("successful_evaluations_using[{op}]")).copied().unwrap_or(0);
                 if n == 0 {
                     machinery(format!("operator {op} was never part of a successful evaluation"));
+                }
+            }
+            for cpu in WALK_CPUS.iter().filter(|c| c.w == 4) {
+                let n = total.counters.get(&format!("walk_register_rules_with_value_wider_than_register[{}]", cpu.name)).copied().unwrap_or(0);
+                if n == 0 {
+                    machinery(format!("{} walk_stack: no register rule produced a value wider than the register", cpu.name));
                 }
             }
             let some: u64 = total.outcomes.iter().filter(|(k, _)| k.contains(": Some")).map(|(_, v)| *v).sum();
